@@ -5,6 +5,7 @@
 //	                            code kills it: the caller reads exit status and stderr)
 //	vh_conc indexer -plan p.json  the same for the indexer service scenarios
 //	vh_conc buslock -plan p.json  the directed lock-order scenario on the real event bus
+//	vh_conc ws -plan p.json       the real websocket server (rpc/websockets.go) under seeded clients
 package main
 
 import (
@@ -44,6 +45,25 @@ func main() {
 			os.Exit(2)
 		}
 		if err := conc.RunBusLock(&p); err != nil {
+			fmt.Fprintln(os.Stderr, "harness error:", err)
+			os.Exit(2)
+		}
+		os.Exit(0)
+	case "ws": // the real websocket server under seeded clients (spec/WsConn.tla)
+		fs := flag.NewFlagSet("ws", flag.ExitOnError)
+		pf := fs.String("plan", "", "plan file")
+		_ = fs.Parse(os.Args[2:])
+		bz, err := os.ReadFile(*pf)
+		if err != nil {
+			fmt.Fprintln(os.Stderr, err)
+			os.Exit(2)
+		}
+		var p conc.WsPlan
+		if err := json.Unmarshal(bz, &p); err != nil {
+			fmt.Fprintln(os.Stderr, err)
+			os.Exit(2)
+		}
+		if err := conc.RunWs(&p); err != nil {
 			fmt.Fprintln(os.Stderr, "harness error:", err)
 			os.Exit(2)
 		}
